@@ -36,13 +36,20 @@ class RecSock:
 
     def setsockopt(self, *a): pass
     def settimeout(self, t): pass
-    def connect(self, a): pass
+
+    def connect(self, a):
+        if self.mod.fail == "connect":
+            raise ConnectionRefusedError(111, "Connection refused")
 
     def sendall(self, d):
+        if self.mod.fail == "send":
+            raise BrokenPipeError(32, "Broken pipe")
         self.mod.sent.append(bytes(d))
 
     def recv(self, n):
         # answer every complete command with a plausible line so that reply-reading calls return
+        if self.mod.fail == "recv":
+            raise ConnectionResetError(104, "Connection reset by peer")
         self.mod.recvs += 1
         return self.mod.reply
 
@@ -57,6 +64,7 @@ class RecModule:
         self.sent = []
         self.recvs = 0
         self.reply = reply
+        self.fail = None  # "connect" | "send" | "recv": the environment fails there (sequence dimension)
 
     def socket(self, *a):
         return RecSock(self)
@@ -456,8 +464,78 @@ def dim_multi(chk, tier, stack):
             judge(chk, "multi", Call(op, many, noreply=True), stack, b"", False, "ascii", f"all-legal-{n}")
 
 
+# a refused or failed call leaves nothing behind: the next call on the same object writes exactly what it
+# writes on a fresh object (first call, environment fault during it)
+SEQ_FIRST = [
+    ("set_many(late illegal key)", lambda o: o.set_many({"a": b"v", "bad key": b"v"}, noreply=False), None),
+    ("set_many(late unencodable value)", lambda o: o.set_many({"a": b"v", "b": "\xe9"}, noreply=False), None),
+    ("set(flags not an int)", lambda o: o.set("k", b"v", flags="1 1"), None),
+    ("cas(cas not a number)", lambda o: o.cas("k", b"v", "1 2"), None),
+    ("delete_many(late illegal key)", lambda o: o.delete_many(["a", "bad key"], noreply=False), None),
+    ("get_many(late illegal key)", lambda o: o.get_many(["a", "bad key"]), None),
+    ("incr(non-integer delta)", lambda o: o.incr("k", "x"), None),
+    ("set [connect refused]", lambda o: o.set("k", b"v", noreply=False), "connect"),
+    ("set_many [connect refused]", lambda o: o.set_many({"a": b"1", "b": b"2"}), "connect"),
+    ("set [send fails]", lambda o: o.set("k", b"v", noreply=False), "send"),
+    ("delete [send fails]", lambda o: o.delete("k", noreply=False), "send"),
+    ("get [send fails]", lambda o: o.get("k"), "send"),
+    ("set [reply lost]", lambda o: o.set("k", b"v", noreply=False), "recv"),
+    ("get_many [reply lost]", lambda o: o.get_many(["a", "b"]), "recv"),
+]
+SEQ_SECOND = [Call("set", ["m"], value=b"w", noreply=False), Call("set_many", ["m", "n"], value=b"w", noreply=False),
+              Call("add", ["m"], value=b"w", noreply=True), Call("cas", ["m"], value=b"w", cas=7, noreply=False),
+              Call("get", ["m"]), Call("gets_many", ["m", "n"]), Call("delete", ["m"], noreply=False),
+              Call("delete_many", ["m", "n"], noreply=False), Call("incr", ["m"], noreply=False),
+              Call("touch", ["m"], expire=5, noreply=False), Call("gat", ["m"], expire=5), Call("flush_all", [], noreply=False)]
+
+
+def run_sequence(stack, first, second, prefix=b""):
+    """-> (bytes written by `second` after `first` on the same object, its ending)"""
+    cls, args = STACKS[stack]
+    mod = RecModule(b"STORED\r\n")
+    obj = cls(*args, socket_module=mod, key_prefix=prefix)
+    if first is not None:
+        mod.fail = first[2]
+        try:
+            first[1](obj)
+        except Exception:  # noqa - the first call is meant to fail
+            pass
+        mod.fail = None
+    mark = len(mod.sent)
+    mod.reply = REPLIES.get(second.op, b"STORED\r\n")
+    try:
+        second.invoke(obj)
+        res = "ok"
+    except Exception as e:  # noqa
+        res = "raises:" + type(e).__name__
+    return b"".join(mod.sent[mark:]), res
+
+
+def dim_sequence(chk, tier, stack, only=None):
+    for prefix in (b"", b"ns:"):
+        for second in SEQ_SECOND:
+            alone = run_sequence(stack, None, second, prefix)
+            for first in SEQ_FIRST:
+                if only is not None and (first[0], second.op) != only:
+                    continue
+                if stack == "HashClient" and first[2] is not None:
+                    continue  # after a network failure HashClient deliberately defers the retry (failover: C13)
+                got = run_sequence(stack, first, second, prefix)
+                chk.add()
+                chk.outcome(("sequence", stack, first[0], second.op, got[1]))
+                if got != alone:
+                    what = "wrote" if got[0] != alone[0] else "ended"
+                    chk.violation(f"sequence|{stack}.{second.op}|after={first[0]}",
+                                  f"{stack}(key_prefix={prefix!r}): after a failed {first[0]}, {second.op} {what} "
+                                  f"{got[0][:120]!r} ({got[1]}); on a fresh object it writes {alone[0][:120]!r} ({alone[1]})",
+                                  {"dim": "sequence", "stack": stack, "first": first[0], "second": second.op})
+
+
 def _worker(job, chk):
     dim, stack, tier, extra = job
+    if dim == "sequence":
+        dim_sequence(chk, tier, stack)
+        return
     if dim == "key":
         prefix, uni, as_str = extra
         dim_keys(chk, tier, stack, prefix, uni, as_str)
@@ -489,6 +567,7 @@ def _jobs(tier):
         jobs.append(("int", stack, tier, None))
         jobs.append(("serde", stack, tier, None))
         jobs.append(("admin", stack, tier, None))
+        jobs.append(("sequence", stack, tier, None))
         if stack != "HashClient":
             jobs.append(("multi", stack, tier, None))
     return jobs
@@ -519,6 +598,10 @@ def _undesc(d):
 
 
 def replay(detail):
+    if detail.get("dim") == "sequence":
+        tmp = runner.Check(PROPERTY, LEVEL, "quick", 0)
+        dim_sequence(tmp, "quick", detail["stack"], only=(detail["first"], detail["second"]))
+        return [v["what"] for v in tmp.violations.values()]
     if detail.get("dim") == "admin":
         tmp = runner.Check(PROPERTY, LEVEL, "quick", 0)
         dim_admin(tmp, "quick", detail["stack"])
